@@ -6,6 +6,9 @@ ALL = ["C%02d" % i for i in range(1, 21)]
 
 # id -> (category, technique, text, note, design_ref)
 CHECKS = {
+ "C19": ("model_checking", "explicit-state breadth-first search over the real Producer+KafkaClient with an alphabet of sends, cancels, ticks, replies and stop; reference model of the batching rules",
+         "BFS (depth 5-6 quick, 7-8 thorough) over every sequence of sends of four sizes, cancels, timer firings, produce replies (ok/error), accepts and stop for 12 threshold configurations (count x bytes x seconds, each possibly disabled, plus unbatched); a reference model recomputed from scratch each step (queue, thresholds, in-flight) decides in which step a dispatch must and may happen, that cancelled-before-dispatch sends never reach the client, and the stop contract.",
+         "warmed-up client, 1 broker/partition, <=4 sends and <=2 cancels per history; dispatch observed at the public KafkaClient.send_produce_request / load_metadata_for_topics seam", "5/C19"),
  "C01": ("model_checking", "deviation-bounded stateless depth-first exploration of the real Producer+KafkaClient on a virtual clock, network and Kafka cluster",
          "Every schedule of the real Producer + KafkaClient against a 2-broker simulated cluster within the stated deviation bound (quick: 1 deviation on 96 configurations, 2 on 32 core ones, plus 361 sticky-fault configurations; thorough: 2-3) is executed to quiescence; deviations are broker error codes per request or partition, silent brokers, drops, refused connections, timers overtaking I/O and early application calls (send/cancel/stop). A monitor checks exactly-once firing and that every success is backed by an append the partition leader acknowledged (or bytes written for acks=0).",
          "SimCluster + refkafka stand in for Kafka; small scope (2 brokers, 3 partitions, <=5 sends); bounds recorded in the evidence notes", "5/C01"),
